@@ -75,16 +75,36 @@ func runC08(c *Ctx) {
 			bad := ""
 			var wit []string
 			nChecks := 0
+			// the protocol needs ONE running check that is made after the announcement and dominates the
+			// send; an additional early check before the announcement (a fast exit for a stopped writer)
+			// licenses nothing and does no harm. So: the send is reachable only through running-true
+			// edges whose check is itself preceded by scheduledCount.Add(1) on every path.
+			var announced []Edge
+			firstUnannounced := ""
+			var firstWit []string
 			for _, e := range runTrue {
 				condPt := Point{e.From, len(e.From.Nodes) - 1}
 				nChecks++
 				if w, found := f.PathFromEntryAvoiding(condPt, isCountAdd("1"), nil); found {
-					bad = "the running check at " + f.PosOf(condPt) + " can be reached before scheduledCount.Add(1): a writer that observes running==false and count==0 in between exits, and the object is stranded in the queue (or the sender blocks forever on a full queue)"
-					wit = w
+					if firstUnannounced == "" {
+						firstUnannounced, firstWit = f.PosOf(condPt), w
+					}
+					continue
 				}
+				announced = append(announced, e)
 			}
 			if nChecks == 0 {
 				bad = "no running check"
+			} else if w, only := f.OnlyThroughEdges(send, announced); !only {
+				at := firstUnannounced
+				if at == "" {
+					at = "?"
+				}
+				bad = "the running check at " + at + " can be reached before scheduledCount.Add(1) and no later check made after the announcement stands between it and the send: a writer that observes running==false and count==0 in between exits, and the object is stranded in the queue (or the sender blocks forever on a full queue)"
+				wit = firstWit
+				if len(wit) == 0 {
+					wit = w
+				}
 			}
 			if bad != "" {
 				r.Fail("publish/announce-then-check", key, f.PosOf(send), bad, wit...)
